@@ -100,6 +100,8 @@ HOST_FULL = [H(p) for p in PATTERNS] + [H(a, b) for a in PATTERNS for b in PATTE
 HOST_RED = ([H(p) for p in PATTERNS]
             + [H(a, b) for a in POS for b in NEG] + [H(b, a) for a in POS for b in NEG]
             + [H("a*", "?b"), H("ab", "b.c")])
+HOST_X3 = ([H(p) for p in PATTERNS]
+           + [H("*", "!a*"), H("!a*", "*"), H("a*", "!ab"), H("!b.c", "?b"), H("?b", "!b.c"), H("a*", "?b")])
 MATCHES = [
     M((False, "all", None)),
     M((False, "host", "a*")),
@@ -366,7 +368,7 @@ def space(tier):
         return {"hdr1": HOST_RED + MATCHES, "body1": B1Q, "globals": G1, "hs": [H("*"), MATCHES[7]],
                 "x3": None}
     return {"hdr1": HOST_FULL + MATCHES, "body1": B1, "globals": G1, "hs": HS_FULL,
-            "x3": (HOST_RED + MATCHES, B1Q, G1[:1])}
+            "x3": (HOST_X3 + MATCHES, B1Q, G1[:1])}
 
 
 def build_items(tier):
